@@ -18,6 +18,8 @@ def flows(src, dst):
     return src.data_type == dst.data_type and src.integrity.value >= dst.integrity.value
 
 
+construct("PortType", "operon_ai.core.wagent", {"data_type": "@enum:DataType.TEXT", "integrity": "@enum:IntegrityLabel.UNTRUSTED"})
+
 contract(FW + "::PortType.can_flow_to", "C16", params={"other": "obj:PortType"}, raises=[],
          ensures={"exactly-the-flow-rule": "result == flows(self, other)"})
 contract(FW + "::PortType.require_flow_to", "C16", params={"other": "obj:PortType"}, raises=["WiringError"],
